@@ -24,7 +24,6 @@ import (
 	"bufio"
 	"context"
 	"encoding/json"
-	"errors"
 	"fmt"
 	"io"
 	"net"
@@ -33,6 +32,7 @@ import (
 	"path/filepath"
 	"runtime"
 	"sort"
+	"strconv"
 	"strings"
 	"sync"
 	"sync/atomic"
@@ -631,10 +631,9 @@ type wireStats struct {
 func judgeWire(wc WireCase, o wireObs) ([]Finding, wireStats) {
 	var out []Finding
 	var ws wireStats
-	pre := "wire"
-	if wc.Part == "e2" {
-		pre = "resolver"
-	}
+	// keys name the failure class, not the part: what concerns the wire exchange starts with "wire:", what concerns
+	// the resolver answer of an attempt with "resolver:"
+	const pre = "wire"
 	add := func(key, format string, a ...any) {
 		out = append(out, Finding{Key: key, Msg: "[part " + wc.Part + "] " + wc.String() + ": " + fmt.Sprintf(format, a...)})
 	}
@@ -785,8 +784,10 @@ func judgeWire(wc WireCase, o wireObs) ([]Finding, wireStats) {
 						add("resolver:lookup-error-classified-policy", "%s; a failed lookup is a network error (retried while attempt <= retry.max, then max_retries), not a policy denial; want %q", ctx, want)
 					case kind == "empty-answer" && got == "dead/policy_denied":
 						add("resolver:empty-answer-classified-policy", "%s; a lookup without addresses is a network error (retried while attempt <= retry.max, then max_retries), not a policy denial; want %q", ctx, want)
+					case n > 0: // the target answered (or hung up): classification of that wire behaviour
+						add(fmt.Sprintf("wire:classify:%s:%s:got=%s", evs[n-1].Beh, within, got), "%s; want %q", ctx, want)
 					default:
-						add(fmt.Sprintf("%s:classify:%s:%s:got=%s", pre, in, within, got), "%s; want %q", ctx, want)
+						add(fmt.Sprintf("resolver:classify:%s:%s:got=%s", in, within, got), "%s; want %q", ctx, want)
 					}
 				}
 			}
@@ -912,6 +913,8 @@ var (
 	wireExamples  []any
 	wireOutcomes  = map[string]bool{}
 	wireDisturbed bool
+	wireClassMu   sync.Mutex
+	wireClasses   = map[string]bool{}
 )
 
 const (
@@ -967,9 +970,15 @@ func (c *checker) wireRun(wc WireCase) wireObs {
 			r.Add("e_wire_requests_on_reused_connection", 1)
 		}
 	}
+	wireClassMu.Lock()
 	for _, d := range ws.distinct {
+		if !wireClasses[d] {
+			wireClasses[d] = true
+			r.Add("e_distinct_classes", 1)
+		}
 		r.Distinct(d)
 	}
+	wireClassMu.Unlock()
 	wireMu.Lock()
 	for _, g := range ws.outcomes {
 		wireOutcomes[g] = true
@@ -1035,19 +1044,21 @@ func wireScripts(alpha []string, terminal func(string) bool, max int) [][]string
 func (c *checker) partWire() {
 	r := c.r
 	// this part has its own wall budget: it runs in real time and must get its share after the virtual-time parts
-	deadline := time.Now().Add(runner.Pick(r, 45*time.Second, 8*time.Minute))
+	budget := runner.Pick(r, 45*time.Second, 8*time.Minute)
+	if n, err := strconv.Atoi(os.Getenv("VERIF_BUDGET_S")); err == nil && time.Duration(n)*time.Second/2 < budget {
+		budget = time.Duration(n) * time.Second / 2
+	}
+	deadline := time.Now().Add(budget)
 
-	e1Alpha := []string{"200", "200c", "503", "503c", "rdclose", "drop", "partial"}
+	e1Alpha := []string{"200", "200b", "200c", "503", "503b", "503c", "rdclose", "drop", "partial"}
 	e1Max := []int{1, 2}
 	payloads := []bool{false}
-	e2Alpha := []string{"allow/200", "allow/503", "deny", "err-temp", "err-nx", "empty"}
+	e2Alpha := []string{"allow/200", "allow/503", "allow/rdclose", "deny", "err-temp", "err-nx", "err-timeout", "err-deadline", "empty", "nil-ip"}
 	e2Max := []int{1, 2}
 	policies := []string{"deny-cidr", "allow-cidr", "rebind"}
 	if r.Thorough() {
-		e1Alpha = []string{"200", "200b", "200c", "503", "503b", "503c", "rdclose", "drop", "partial"}
 		e1Max = []int{1, 2, 3}
 		payloads = []bool{false, true}
-		e2Alpha = []string{"allow/200", "allow/503", "allow/rdclose", "deny", "err-temp", "err-nx", "err-timeout", "err-deadline", "empty", "nil-ip"}
 		e2Max = []int{1, 2, 3}
 		policies = []string{"deny-cidr", "allow-cidr", "rebind", "rebind-loopback", "allow-host+deny-cidr", "rebind+allow-cidr"}
 	}
@@ -1107,6 +1118,16 @@ func (c *checker) partWire() {
 	}
 	sort.Strings(classes)
 	r.Set("e_outcome_classes_observed", classes)
+	if os.Getenv("VERIF_VERBOSE") != "" {
+		wireClassMu.Lock()
+		var l []string
+		for k := range wireClasses {
+			l = append(l, k)
+		}
+		wireClassMu.Unlock()
+		sort.Strings(l)
+		fmt.Printf("part e classes (%d):\n  %s\n", len(l), strings.Join(l, "\n  "))
+	}
 	r.Set("e_examples", wireExamples)
 	wireMu.Unlock()
 	r.Set("e_rule", "every case is one history on the real PushDispatcher + real HTTPDeliverer + real http.Transport (clone of http.DefaultTransport, no proxy) against a raw TCP target on loopback, in real time with a 1ms backoff: "+
@@ -1140,5 +1161,3 @@ func (c *checker) replayWire(raw []byte) bool {
 	c.r.Finish()
 	return true
 }
-
-var _ = errors.Is
